@@ -57,6 +57,7 @@ var (
 	foreign6 = tcpip.Address("\xfd\x00\x00\x00\x00\x00\x00\x00\x00\x00\x00\x00\x00\x00\x00\x4d")
 	bcast4   = tcpip.Address("\xff\xff\xff\xff")
 	second4  = tcpip.Address("\x0a\x00\x00\x09") // a second address of the stack, added and removed during the run
+	peer4b   = tcpip.Address("\x0a\x00\x00\x03") // a second requester on the link
 )
 
 type echoWorld struct {
@@ -131,20 +132,55 @@ func (w *echoWorld) request(flags int, ident, seq uint16, n int, wait bool, burs
 		return
 	}
 	w.ipid++
+	// IP options in front of the message and link-layer padding behind the datagram are the sender's and
+	// the link's business: the request is the same request
+	var opts, pad []byte
+	if flags&128 != 0 {
+		opts = [][]byte{codec.OptRecordRoute(1), codec.OptRouterAlert(), {1, 1, 1, 1}, codec.OptRecordRoute(3)}[int(ident)%4]
+		w.Probes["requests_with_ip_options"]++
+	}
+	if flags&256 != 0 {
+		pad = bytes.Repeat([]byte{0xee}, 1+int(seq)%26)
+		w.Probes["requests_with_link_padding"]++
+	}
+	ip4 := func(src tcpip.Address, mf bool, off int, payload []byte) []byte {
+		var b []byte
+		if opts != nil {
+			b = codec.IPv4Opts([]byte(src), []byte(r.dst), codec.ProtoICMP, w.ipid, 64, false, mf, off, opts, payload)
+		} else {
+			b = codec.IPv4([]byte(src), []byte(r.dst), codec.ProtoICMP, w.ipid, 64, false, mf, off, payload)
+		}
+		return append(b, pad...)
+	}
 	if frag && len(msg) > 16 {
 		// two fragments, second first (ties into C08)
 		cut := (len(msg) / 2) &^ 7
 		if cut == 0 {
 			cut = 8
 		}
-		a := codec.IPv4([]byte(r.src), []byte(r.dst), codec.ProtoICMP, w.ipid, 64, false, true, 0, msg[:cut])
-		b := codec.IPv4([]byte(r.src), []byte(r.dst), codec.ProtoICMP, w.ipid, 64, false, false, cut, msg[cut:])
+		a := ip4(r.src, true, 0, msg[:cut])
+		b := ip4(r.src, false, cut, msg[cut:])
 		w.Probes["fragmented_request"]++
+		if flags&512 != 0 && r.dst == A4 {
+			// a second requester, same IP identification, its fragments in between the first one's: two
+			// requests, two replies, each mirroring its own request
+			r2 := &echoReq{src: peer4b, dst: r.dst, ident: ident ^ 0x5555, seq: seq + 1, data: echoPayload(w.seed, ident^0x5555, seq+1, len(r.data)), burst: burst, own: r.own}
+			w.reqs = append(w.reqs, r2)
+			msg2 := codec.EncodeEcho([]byte(r2.src), []byte(r2.dst), false, false, r2.ident, r2.seq, r2.data)
+			a2 := ip4(r2.src, true, 0, msg2[:cut])
+			b2 := ip4(r2.src, false, cut, msg2[cut:])
+			w.Probes["interleaved_fragments_of_two_requesters"]++
+			w.Inject4(a, 0)
+			w.Inject4(a2, 0)
+			w.Inject4(b2, 0)
+			w.Inject4(b, 0)
+			return
+		}
 		w.Inject4(b, 0)
 		w.Inject4(a, 0)
 		return
 	}
-	pkt := codec.IPv4([]byte(r.src), []byte(r.dst), codec.ProtoICMP, w.ipid, 64, false, false, 0, msg)
+	pkt := ip4(r.src, false, 0, msg)
 	if wait {
 		w.Inject4(pkt, mode)
 	} else {
@@ -298,6 +334,15 @@ func (w *echoWorld) next() Step {
 		flags |= 8
 	}
 	flags |= r.Intn(3) << 5
+	if r.Chance(0.15) {
+		flags |= 128
+	}
+	if r.Chance(0.15) {
+		flags |= 256
+	}
+	if r.Chance(0.4) {
+		flags |= 512
+	}
 	lens := []int{0, 1, 2, 7, 8, 9, 55, 56, 57, 127, 128, 129, 1000, 1471, 1472, 1473, 8000, 65000}
 	n := lens[r.Intn(len(lens))]
 	if r.Chance(0.3) {
